@@ -41,8 +41,12 @@ theorem conv_good (hQ : Compat N Q) (t : H) : ∀ env, Good N σ (conv env t) (S
     · exact Good.fail
   | num T q =>
     intro env; simp only [conv]
-    refine Good.pure fun ρ => ?_
-    by_cases h : T = .real <;> simp [h, evalR, evalZ, evalH]
+    by_cases hneg : (T == Ty.nat && decide (q.num < 0)) = true
+    · simp only [hneg, if_true]; exact Good.fail
+    · simp only [hneg, Bool.false_eq_true, if_false]
+      refine Good.pure fun ρ => ?_
+      simp only [evalH, hneg, Bool.false_eq_true, if_false]
+      by_cases h : T = .real <;> simp [h, evalR, evalZ]
   | tt => intro env; simp only [conv]; exact Good.pure fun ρ => rfl
   | ff => intro env; simp only [conv]; exact Good.pure fun ρ => rfl
   | not a iha =>
@@ -227,17 +231,13 @@ theorem conv_good (hQ : Compat N Q) (t : H) : ∀ env, Good N σ (conv env t) (S
     | pb b => exact Good.fail
   | app f dom cod a iha =>
     intro env; simp only [conv]
-    refine Good.bind (iha env) fun a' => ?_
-    cases a' with
-    | pb b => exact Good.fail
-    | pi n => exact Good.pure fun ha ρ => by show _ = F f (evalH N Q O σ F ρ a); rw [← ha ρ]; rfl
-    | z e => exact Good.pure fun ha ρ => by show _ = F f (evalH N Q O σ F ρ a); rw [← ha ρ]; rfl
+    refine Good.bind (iha env) fun a' => Good.pure fun ha ρ => ?_
+    show F f (evalZ N Q (div0H N) σ F ρ a'.toZ) = F f (evalH N Q O σ F ρ a)
+    rw [toZ_sem, ha ρ]
   | mem a S dom iha =>
     intro env; simp only [conv]
-    refine Good.bind (iha env) fun a' => ?_
-    cases a' with
-    | pb b => exact Good.fail
-    | pi n => exact Good.pure fun ha ρ => by show _ = F S (evalH N Q O σ F ρ a); rw [← ha ρ]; rfl
-    | z e => exact Good.pure fun ha ρ => by show _ = F S (evalH N Q O σ F ρ a); rw [← ha ρ]; rfl
+    refine Good.bind (iha env) fun a' => Good.pure fun ha ρ => ?_
+    show F S (evalZ N Q (div0H N) σ F ρ a'.toZ) = F S (evalH N Q O σ F ρ a)
+    rw [toZ_sem, ha ρ]
 
 end Holpy.C06
